@@ -34,6 +34,8 @@ type PropDef struct {
 	Assumptions []string // trusted base
 	Explorer    string
 	Run         func(c *Ctx)
+	// Pre runs in the supervisor before the workers start (optional, e.g. building a harness).
+	Pre func(m *Merged, scratch string) error
 	// Post runs in the supervisor on merged data (optional, e.g. cross-shard oracles).
 	Post func(m *Merged)
 	// Workers overrides the default number of worker processes (0 = default).
@@ -105,6 +107,13 @@ func runCheck(id, tier string) int {
 
 	m := &Merged{Prop: id, Tier: tier, Counters: map[string]int64{}, Outcomes: map[string]int64{},
 		Classes: map[string]*classAgg{}, Exhaustive: true, Bounds: map[string]any{}, NShards: nw}
+	if p.Pre != nil {
+		if err := p.Pre(m, scratch); err != nil {
+			fmt.Fprintf(os.Stderr, "spdxmc: %s: preparation failed (infrastructure failure, not a verdict):\n%v\n", id, err)
+			os.RemoveAll(scratch)
+			os.Exit(2)
+		}
+	}
 	var mu sync.Mutex
 	var wg sync.WaitGroup
 	for s := 0; s < nw; s++ {
